@@ -246,6 +246,13 @@ class Engine:
             feature_collection.add(feature)
             return True
 
+        if feature.initial_requested_data:
+            # An equal feature (e.g. a filter or index feature) was stored first: the request flag must not get lost.
+            for stored_feature in feature_collection:
+                if stored_feature == feature:
+                    stored_feature.initial_requested_data = True
+                    break
+
         if child_uuid:
             # Find the wanted_uuid in feature_collection
             wanted_uuid = next((f.uuid for f in feature_collection if feature == f), None)
